@@ -7,9 +7,13 @@ import (
 
 	"mellium.im/xmpp/bin"
 	"mellium.im/xmpp/crypto"
+	"mellium.im/xmpp/disco"
+	"mellium.im/xmpp/disco/info"
 	"mellium.im/xmpp/file"
 	"mellium.im/xmpp/form"
 	"mellium.im/xmpp/history"
+	"mellium.im/xmpp/jid"
+	"mellium.im/xmpp/muc"
 	"mellium.im/xmpp/stanza"
 	"mellium.im/xmpp/styling"
 	"verifharness/hx"
@@ -109,10 +113,18 @@ func formTD() *typeDesc {
 
 func init() {
 	extraCorpus = map[string][]interface{}{
-		"stanza.Delay":      {stanza.Delay{Stamp: time.Unix(1000, 5)}, stanza.Delay{}},
-		"bin.Data":          {&bin.Data{Data: []byte("a")}, &bin.Data{Data: []byte("ab"), MaxAge: 400 * time.Millisecond}, &bin.Data{MaxAge: 1500 * time.Millisecond}},
-		"styling.Unstyled":  {styling.Unstyled{Value: false}, styling.Unstyled{Value: true}},
-		"file.Meta":         {&file.Meta{}, &file.Meta{Name: "n", Date: time.Unix(1000, 123456789).In(time.FixedZone("", 3600))}},
+		"stanza.Delay":     {stanza.Delay{Stamp: time.Unix(1000, 5)}, stanza.Delay{}},
+		"bin.Data":         {&bin.Data{Data: []byte("a")}, &bin.Data{Data: []byte("ab"), MaxAge: 400 * time.Millisecond}, &bin.Data{MaxAge: 1500 * time.Millisecond}},
+		"styling.Unstyled": {styling.Unstyled{Value: false}, styling.Unstyled{Value: true}},
+		"file.Meta": {&file.Meta{}, &file.Meta{Name: "n", Date: time.Unix(1000, 123456789).In(time.FixedZone("", 3600))},
+			// a zone offset with seconds: the date was written in its own zone and came back 15 s off
+			&file.Meta{Name: "lmt", Date: time.Unix(1000, 0).In(time.FixedZone("LMT", 5*3600+30*60+15))}},
+		// marshalled by value the affiliation and role were written as numbers
+		"muc.Item": {muc.Item{JID: jid.MustParse("a@b/c"), Affiliation: muc.AffiliationAdmin, Role: muc.RoleModerator}, muc.Item{Affiliation: muc.AffiliationOutcast}},
+		// the extended-info forms were never written
+		"disco.Info": {disco.Info{Identity: []info.Identity{{Category: "client", Type: "pc"}}, Features: []info.Feature{{Var: "urn:x"}},
+			Form: []form.Data{*form.New(form.Hidden("FORM_TYPE", form.Value("urn:xmpp:dataforms:softwareinfo")), form.Text("os", form.Value("Mac")))}}},
+		"disco.Caps":        {disco.Caps{Hash: crypto.SHA1, Node: "n", Ver: ""}},
 		"crypto.HashOutput": {crypto.HashOutput{Hash: crypto.SHA1}},
 		"crypto.Key":        {crypto.Key{Trusted: true, KeyID: []byte("abc")}},
 		"history.Query":     {&history.Query{ID: "q", PageID: "p1", Limit: 3, Start: time.Unix(1000, 500000000)}, &history.Query{Last: true, PageID: "p"}},
